@@ -157,6 +157,7 @@ class GenV:
     fi: object
     args: tuple
     kwargs: tuple
+    wrap: tuple = ()  # lazy wrappers around what it yields, innermost first: ("enumerate", start)
 
     def __repr__(self):
         return f"Gen({self.fi.qualname})"
